@@ -161,9 +161,8 @@ class Sequential(Module):
                 self.register_module(str(idx), module)
         
     def forward(self, x:Tensor) -> Tensor:
-        inp = x
+        out = x # an empty Sequential is the identity
         for module in self.submodules():
-            out = module(inp)
-            inp = out
+            out = module(out)
         return out
         
